@@ -37,7 +37,7 @@ def zone_canonicalize(ctx, rid, core):
         raise AnalysisBroken('CanonicalizePath core overload has %d parameters' % len(ps))
     pbuf, plen = ps[0]['n'], ps[1]['n']
     cell = '*' + plen
-    an = Analysis(core, deref_vars={plen: cell}, extra_vars=['LIM'])
+    an = Analysis(core, deref_vars={plen: cell}, extra_vars=['LIM', '__t'])
     z = Zone(an.names)
     z.add(pbuf, ZERO, 0)
     z.add(ZERO, pbuf, 0)          # offsets are measured from the buffer start
@@ -103,7 +103,7 @@ def zone_canonicalize(ctx, rid, core):
                 access(zs, e, e['e'], None, dstr({'k': 'un', 'op': '*', 'e': e['e']}) in writes)
         elif k == 'call' and (e.get('name') or '') in ('memmove', 'memcpy', 'memset', 'memchr', 'memcmp'):
             args = e.get('args') or []
-            n = an.lin(args[2], zs) if len(args) == 3 else None
+            n = an.lin_or_temp(args[2], zs) if len(args) == 3 else None
             if n is None:
                 ctx.check(rid, False, core.name, '%s:length-not-linear' % e['name'], core.where(e),
                           'the length of %s is a linear expression of tracked cursors' % e['name'])
@@ -177,8 +177,16 @@ def run(ctx):
 
     def is_core(x):
         return x['k'] == 'call' and x.get('name') == 'CanonicalizePath' and len(x.get('args') or []) == 3
+    # (the empty string may be left alone: the core returns at once for a zero length)
+    def not_empty_way(b2, i2, s3):
+        return not any((p_ is True and 'empty()' in dstr(a) and pname_ in dstr(a)) or
+                       (p_ is True and 'size()' in dstr(a) and '== 0' in dstr(a) and pname_ in dstr(a)) or
+                       (p_ is False and 'size()' in dstr(a) and ('0 <' in dstr(a) or '!= 0' in dstr(a)) and pname_ in dstr(a))
+                       for k_, p_, a in wrap.edge_facts(b2, i2))
+    pname_ = wrap.params[0]['n']
     must_pass(ctx, 'C14.W', wrap, is_core, lambda x: x['k'] in ('ret', 'exit'),
-              'the string overload of CanonicalizePath always delegates to the char* overload', 'wrapper-bypasses-core')
+              'the string overload of CanonicalizePath always delegates to the char* overload (except for the empty string)', 'wrapper-bypasses-core',
+              edge_ok=not_empty_way)
     pname = wrap.params[0]['n']
     for c in [e for e in wrap.events('call') if is_core(e)]:
         lens = [y['n'] for y in walk(c['args'][1]) if y.get('k') == 'var']
